@@ -335,6 +335,8 @@ class Path:
             a, b = self.ev(i.ops[0]), self.ev(i.ops[1])
             f = fold_bin(op, bits, a, b) if bits else None
             self.env[i.name] = f if f is not None else ("b", op, bits, a, b)
+            if op in ("udiv", "sdiv", "urem", "srem") and b[0] != "c":
+                self.events.append(Event("div", i, val=b, extra=op))
         elif op in ("zext", "sext", "trunc"):
             a = self.ev(i.ops[0])
             fb, tb = int_bits(i.ops[0].ty), int_bits(i.ty)
